@@ -277,6 +277,53 @@ def run(ctx):
                    "tiers touched: %s; on every path: %s" % (sorted(tiers), every), f.loc)
     ctx.floor("C15.U2 tier insertions", n2, 3)
 
+    # ---- U8: a lookup remembers nothing but the template it loaded.  `LoaderStore::get` takes `&self`; the one thing
+    # it may record through interior mutability is the keep-first fill of a template tier with what the loader
+    # returned.  Anything else remembered there (a negative cache of missing names, counters, "last loader answer")
+    # makes later renders depend on which lookups happened before, e.g. across set_loader.
+    INTERIOR_WRITES = ("insert", "replace", "get_or_insert", "get_or_try_insert", "get_or_insert_owned", "remove", "clear",
+                       "set", "borrow_mut", "lock", "store", "fetch_add", "swap", "push")
+    n8 = 0
+    for f in prog.fns.values():
+        if f.crate != "minijinja":
+            continue
+        root = prog.fns.get(f.root) if f.kind == "closure" else f
+        if root is None or not root.path.startswith(STORE + "::") or not root.locals[1].get("s", "").startswith("&minijinja::loader::LoaderStore"):
+            continue
+        for c in f.calls():
+            last = c.name.split("::")[-1]
+            if last not in INTERIOR_WRITES or not c.args:
+                continue
+            fields = set()
+            for o in flow.origins(f, c.args[0], through_calls=lambda k: 0 if k.name.endswith(("::deref", "::deref_mut", "::as_ref")) else None):
+                if o.kind == "arg" and o.proj:
+                    fields.add(o.proj[0] if f.kind != "closure" else ".".join(o.proj))
+            if f.kind == "closure":
+                # captured `&self`: resolve the field through the capture
+                caps = flow.closure_captures(prog, f)
+                for o in flow.origins(f, c.args[0]):
+                    if o.kind == "arg" and o.arg == 1 and o.proj:
+                        try:
+                            idx_ = int(o.proj[0])
+                        except ValueError:
+                            continue
+                        if idx_ < len(caps):
+                            for oo in caps[idx_]:
+                                fields |= {x for x in oo.proj}
+                                fields |= set(o.proj[1:])
+            fields = {x.split(".")[-1] for x in fields}
+            fields = {x for x in fields if not x.isdigit() and x != "*"}
+            named = {x for x in fields if x in ("borrowed_templates", "owned_templates", "loader", "template_config") or x.endswith("_templates")}
+            if not named:
+                continue
+            n8 += 1
+            ok8 = named <= set(TIERS) and MAP_API.get(c.name) == "keep-first"
+            ctx.ob("C15.U8.lookup-remembers-only-loaded-templates", "%s|%s.%s" % (root.path, "+".join(sorted(named)), last), ok8,
+                   "a `&self` lookup of the store records something in `%s` through %s: only the keep-first fill of a "
+                   "template tier may be remembered; a remembered miss (or any other lookup by-product) makes what a "
+                   "template resolves to depend on earlier lookups" % ("+".join(sorted(named)), c.name), f.where(c.bb))
+    ctx.floor("C15.U8 interior writes in `&self` methods of the store", n8, 1)
+
     # ---- U7
     n7 = check_shared_state(ctx, prog, ENV, "minijinja::")
     ctx.floor("C15.U7 fields of Environment and the stores it owns", n7, 15)
